@@ -251,10 +251,20 @@ const ATAN_FRAC_3_2: TwoFloat = TwoFloat {
 
 fn quadrant(value: TwoFloat) -> (TwoFloat, i8) {
     if value.abs() < FRAC_PI_4 {
+        #[cfg(feature = "verif_hooks")]
+        crate::verif_hooks::touch(crate::verif_hooks::SITE_QUADRANT, 0);
         (value, 0)
     } else {
         let quotient = (value / FRAC_PI_2).round();
         let remainder = value - quotient * FRAC_PI_2;
+        #[cfg(feature = "verif_hooks")]
+        crate::verif_hooks::touch(
+            crate::verif_hooks::SITE_QUADRANT,
+            match i8::try_from(quotient % 4.0) {
+                Ok(q) if (-4..4).contains(&q) => (q + 5) as usize,
+                _ => 9,
+            },
+        );
         match i8::try_from(quotient % 4.0) {
             Ok(quadrant) if quadrant >= 0 => (remainder, quadrant),
             Ok(quadrant) if quadrant >= -4 => (remainder, 4 + quadrant),
